@@ -57,7 +57,7 @@ def check(prog, res, tier):
         out = set()
         for p in runs.inv:
             for e in p.events:
-                if e.kind == 'ext-call' and e.data['callee'] in ('struct.pack', 'struct.unpack') and e.func == fname and e.data['args']:
+                if e.kind == 'ext-call' and e.data['callee'] in ('struct.pack', 'struct.unpack') and fname in e.stack and e.data['args']:
                     f0 = p.interp.py_key(p.interp.resolve(e.data['args'][0]))
                     out.add(f0 if isinstance(f0, str) else '<non-constant>')
         return out
@@ -257,7 +257,7 @@ def check(prog, res, tier):
 
         def chk(p, mode):
             if p.outcome != 'return':
-                return [definite('constructor raises')]
+                return [definite('constructor raises')] if p.outcome == 'raise' else []
             obj = p.interp.user['obj']
             v = obj.fields.get(field)
             bl = p.binds.get(('truth', 'blocked'))
